@@ -294,8 +294,12 @@ fn one_issuance(ctx: &mut Ctx, pki: &Pki, label: &str, nss: Namespaces, auth: Op
         let (h, m) = offs[ctx.rng.gen_range(0..offs.len())];
         t.to_offset(time::UtcOffset::from_hms(h, m, 0).unwrap())
     };
-    let vf = now - time::Duration::days(ctx.rng.gen_range(0..400));
-    let vu = now + time::Duration::days(ctx.rng.gen_range(1..4000));
+    // … and with any sub-second part (none, below a millisecond, whole milliseconds, almost a second): a tdate has none
+    let fr = |ctx: &mut Ctx| -> u32 { let f = [0u32, 0, 1, 999, 999_999, 1_000_000, 500_000_000, 999_999_999]; f[ctx.rng.gen_range(0..f.len())] };
+    let with_fraction = |t: time::OffsetDateTime, n: u32| t.replace_nanosecond(n).unwrap();
+    let vf = with_fraction(now - time::Duration::days(ctx.rng.gen_range(0..400)), fr(ctx));
+    let vu = with_fraction(now + time::Duration::days(ctx.rng.gen_range(1..4000)), fr(ctx));
+    let now = with_fraction(now, fr(ctx));
     let validity_info = ValidityInfo {
         signed: in_some_offset(ctx, now),
         valid_from: in_some_offset(ctx, vf),
